@@ -28,6 +28,7 @@ def check(c: Check):
         'DESIGN.md C14; not equality of characters across representations or buffer-size boundaries.')
     clause_a(c)
     clause_b(c)
+    clause_b2(c)
     clause_c(c)
     clause_d(c)
 
@@ -79,7 +80,7 @@ def classify_as_lines(ix: Index, f: FuncDef) -> str:
                             mode = kw.value
                     newline = [kw for kw in bound.keywords if kw.arg == 'newline']
                     if newline:
-                        kinds.add('UNKNOWN')
+                        kinds.add('NEWLINE-ARG')
                     elif mode is None or (isinstance(mode, ast.Constant) and 'b' not in mode.value):
                         kinds.add('NL')
                     else:
@@ -105,6 +106,8 @@ def classify_as_lines(ix: Index, f: FuncDef) -> str:
                 kinds.add('DELEGATE')  # own helper that iterates the parts' as_lines (judged below)
                 continue
         kinds.add('UNKNOWN')
+    if 'NEWLINE-ARG' in kinds:
+        return 'NEWLINE-ARG'
     if len(kinds) == 1:
         return next(iter(kinds))
     if kinds == {'NL', 'DELEGATE'}:
@@ -134,6 +137,11 @@ def clause_a(c: Check):
         if k == 'UNKNOWN':
             raise AnalysisError('C14-a: the line iterator of %s.as_lines is not understood (%s:%d)' % (
                 cls.key, f.module.relpath, f.node.lineno))
+        if k == 'NEWLINE-ARG':
+            c.bad('C14-a', key, '%s.as_lines opens the file with an explicit newline= argument: its line ends are not '
+                                'translated like those of as_str and of every other file-backed text (CR LF / CR)' % cls.name,
+                  f.loc())
+            continue
         c.expect(k != 'UNICODE', 'C14-a', key,
                  '%s.as_lines splits with str.splitlines, which also ends lines at \\f, \\v, \\x1c-\\x1e, \\x85, U+2028/9 and '
                  'lone \\r, while file-backed texts are split at \\n only: the same text has a different number of lines '
@@ -202,6 +210,44 @@ def clause_b(c: Check):
                         c.bad('C14-b', 'bytes@' + where, 'a text is accessed as bytes', '%s:%d' % (m.relpath, n.lineno))
     c.floor('C14-b', 'open() calls on texts', n_open, 8)
     c.ok('C14-b', 'no-byte-level-access', '%d open() calls, all text mode' % n_open)
+
+
+def clause_b2(c: Check):
+    """file-versus-file equality reads both texts to the end: on every path that answers "equal" the two files have
+    been read the same number of times (an iteration that ends counts as the read that found the end)"""
+    ix, fo = c.ix, c.fo
+    from ..absint import Interp, Hooks, State, K, Sym
+    f = ix.func('exactly_lib.impls.types.string_matcher.impl.equality:_ExtDepsOfBothHandler._do_compare')
+
+    class H(Hooks):
+        loop_bound = 2
+
+    n = 0
+    for p in util.func_paths(ix, fo, f, H()):
+        if p.truncated or p.kind != 'return' or not (isinstance(p.val, K) and p.val.v is True):
+            continue
+        reads = {}
+        bound = {}
+        for w_ in ast.walk(f.node):
+            if isinstance(w_, ast.With):
+                for item in w_.items:
+                    if item.optional_vars is not None:
+                        bound[unparse(item.optional_vars)] = unparse(item.context_expr)
+        for e in p.trace:
+            if e.kind == 'call' and isinstance(e.node.func, ast.Attribute) and e.node.func.attr in ('read', 'readline', 'readlines'):
+                key = bound.get(unparse(e.node.func.value))
+                if key:
+                    reads[key] = reads.get(key, 0) + 1
+            elif e.kind in ('loop-iter', 'loop-exit') and isinstance(e.node, ast.For):
+                key = bound.get(unparse(e.node.iter))
+                if key:
+                    reads[key] = reads.get(key, 0) + 1
+        n += 1
+        vals = sorted(reads.values())
+        c.expect(len(reads) == 2 and vals[0] == vals[1], 'C14-b', '_do_compare/reads-both-to-the-end/%s' % '-'.join(map(str, vals)),
+                 'on a path that answers "equal" the two files have been read %s times: one text is not read to its '
+                 'end, so a text that is a prefix of the other compares equal' % reads, f.loc())
+    c.floor('C14-b', 'paths of the file comparison that answer equal', n, 1)
 
 
 # ---------------------------------------------------------------- c
